@@ -340,7 +340,8 @@ def check_param_grads(rec, label, opt, outputs, dl_douts, clipped: bool):
     for g in opt.param_groups:
         if not close(g["lr"], want, 0.0) and abs(g["lr"] - want) > 1e-12:
             rec.prob(f"oracle-{tag}-learning-rate", f"param group lr {g['lr']!r}, schedule(progress={progress}) = {want!r}")
-    rec.expr(f"{tag}-lr", f"ck (lr_Q {coq_bool(linear)} {fq(lr0)} {fq(m.num_timesteps)} {fq(rec.total)}) {fq(opt.param_groups[0]['lr'])}")
+    rec.expr(f"{tag}-lr", f"ckll (apply_lr (fun p => if {coq_bool(linear)} then {fq(lr0)} * p else {fq(lr0)}) (progress_Q {fq(m.num_timesteps)} {fq(rec.total)}) "
+                          f"[{fql([0.0] * len(opt.param_groups))}]) [{fql([g['lr'] for g in opt.param_groups])}]")
 
 
 def grads_of(rec, tag, outs):
@@ -664,10 +665,17 @@ def gen_configs(rng, tier):
         dict(algo="dqn", continuous=False, batch_size=6, gamma=0.99, max_grad_norm=0.05, total=36, learning_starts=10, train_freq=2, gradient_steps=1, linear_lr=True, reward_scale=4.0),
         dict(algo="sac", continuous=True, batch_size=8, gamma=0.95, ent_coef="auto", n_critics=2, total=26, learning_starts=12, train_freq=2, gradient_steps=1),
         dict(algo="sac", continuous=True, batch_size=6, gamma=0.9, ent_coef=0.2, n_critics=3, total=24, learning_starts=10, train_freq=4, gradient_steps=2, linear_lr=True),
-        dict(algo="sac", continuous=True, batch_size=6, gamma=0.99, ent_coef="auto_0.5", n_critics=2, total=22, learning_starts=10, train_freq=3, gradient_steps=3, target_entropy=-1.5, use_sde=True),
+        dict(algo="sac", continuous=True, batch_size=6, gamma=0.99, ent_coef="auto_0.5", n_critics=2, total=22, learning_starts=10, train_freq=3, gradient_steps=3, target_entropy_arg=-1.5, use_sde=True),
         dict(algo="td3", continuous=True, batch_size=8, gamma=0.95, n_critics=2, policy_delay=2, target_policy_noise=0.3, target_noise_clip=0.25, total=26, learning_starts=10, train_freq=2, gradient_steps=2),
         dict(algo="td3", continuous=True, batch_size=6, gamma=0.9, n_critics=2, policy_delay=3, target_policy_noise=1.0, target_noise_clip=1.5, total=26, learning_starts=10, train_freq=1, gradient_steps=1, linear_lr=True),
         dict(algo="ddpg", continuous=True, batch_size=8, gamma=0.98, n_critics=1, policy_delay=1, target_policy_noise=0.1, target_noise_clip=0.0, total=22, learning_starts=10, train_freq=2, gradient_steps=2),
+        # extractor sharing, size-1 minibatch with normalize_advantage (guarded), n_critics 1/3, "auto_0.1", gSDE without squashing
+        dict(algo="ppo", continuous=False, n_steps=9, batch_size=4, n_epochs=1, clip_range=0.2, clip_range_vf=0.3, normalize_advantage=True, ent_coef=0.01, vf_coef=0.5,
+             max_grad_norm=0.5, gamma=0.99, total=18, share=False),
+        dict(algo="a2c", continuous=True, n_steps=4, normalize_advantage=True, ent_coef=0.01, vf_coef=0.5, max_grad_norm=0.5, gamma=0.95, total=16, use_sde=True),
+        dict(algo="sac", continuous=True, batch_size=5, gamma=0.97, ent_coef="auto_0.1", n_critics=1, total=20, learning_starts=10, train_freq=2, gradient_steps=1, share=True),
+        dict(algo="td3", continuous=True, batch_size=5, gamma=0.93, n_critics=3, policy_delay=2, target_policy_noise=0.2, target_noise_clip=0.5, total=20, learning_starts=10, train_freq=2,
+             gradient_steps=2, share=True),
     ]
     out = []
     reps = 1 if tier == "quick" else 10
@@ -716,12 +724,13 @@ def build_model(cfg):
         m = sb3.DQN("MlpPolicy", env, batch_size=cfg["batch_size"], max_grad_norm=cfg["max_grad_norm"], learning_starts=cfg["learning_starts"], train_freq=cfg["train_freq"],
                     gradient_steps=cfg["gradient_steps"], target_update_interval=5, buffer_size=200, policy_kwargs=pk, **common_kw)
     elif algo == "sac":
-        pk = dict(net_arch=[8], n_critics=cfg["n_critics"])
+        pk = dict(net_arch=[8], n_critics=cfg["n_critics"], share_features_extractor=cfg.get("share", False))
         m = sb3.SAC("MlpPolicy", env, batch_size=cfg["batch_size"], ent_coef=cfg["ent_coef"], learning_starts=cfg["learning_starts"], train_freq=cfg["train_freq"],
-                    gradient_steps=cfg["gradient_steps"], target_entropy=cfg.get("target_entropy", "auto"), use_sde=cfg.get("use_sde", False), buffer_size=200, policy_kwargs=pk, **common_kw)
-        cfg["target_entropy"] = cfg.get("target_entropy", -2.0)  # -dim(A) for the 2-d action space
+                    gradient_steps=cfg["gradient_steps"], target_entropy=cfg.get("target_entropy_arg", "auto") if cfg.get("target_entropy_arg") is not None else "auto",
+                    use_sde=cfg.get("use_sde", False), buffer_size=200, policy_kwargs=pk, **common_kw)
+        cfg["target_entropy"] = cfg["target_entropy_arg"] if cfg.get("target_entropy_arg") is not None else -2.0  # -prod(action shape) for the 2-d action space
     else:
-        pk = dict(net_arch=[8], n_critics=cfg["n_critics"])
+        pk = dict(net_arch=[8], n_critics=cfg["n_critics"], share_features_extractor=cfg.get("share", False))
         if algo == "td3":
             m = sb3.TD3("MlpPolicy", env, batch_size=cfg["batch_size"], policy_delay=cfg["policy_delay"], target_policy_noise=cfg["target_policy_noise"],
                         target_noise_clip=cfg["target_noise_clip"], learning_starts=cfg["learning_starts"], train_freq=cfg["train_freq"], gradient_steps=cfg["gradient_steps"],
@@ -735,6 +744,8 @@ def build_model(cfg):
 def run_config(cfg):
     m = build_model(cfg)
     rec = Recorder(cfg["algo"], m, cfg, cfg["total"])
+    if cfg["algo"] == "sac":
+        check_sac_setup(rec, m, cfg)
     undo = install(rec)
     try:
         m.learn(total_timesteps=cfg["total"])
@@ -754,6 +765,31 @@ def run_config(cfg):
     if rec.n_opt_steps == 0:
         rec.prob(f"oracle-{cfg['algo']}-no-gradient-step", "the run performed no optimizer step")
     return rec
+
+
+def check_sac_setup(rec, m, cfg):
+    """target_entropy and the initial entropy coefficient as parsed by SAC._setup_model"""
+    import numpy as np
+
+    shape = [int(x) for x in m.action_space.shape]
+    given = cfg.get("target_entropy_arg")
+    H = float(m.target_entropy)
+    want_H = float(given) if given is not None else -float(np.prod(shape))
+    if abs(H - want_H) > 1e-9:
+        rec.problems.append(("oracle-sac-target-entropy-setup", f"target_entropy {H}, expected {want_H} (-prod(action shape) when 'auto')", -1))
+    ec = cfg["ent_coef"]
+    if isinstance(ec, str):
+        init = float(ec.split("_")[1]) if "_" in ec else 1.0
+        spec = f"(EntAuto {'(Some ' + fq(init) + ')' if '_' in ec else 'None'})"
+        got = math.exp(float(m.log_ent_coef.detach())) if m.log_ent_coef is not None else float("nan")
+        learned = m.ent_coef_optimizer is not None
+    else:
+        init, spec = float(ec), f"(EntFixed {fq(ec)})"
+        got = float(m.ent_coef_tensor)
+        learned = m.ent_coef_optimizer is not None
+    if not (abs(got - init) <= 1e-6 * max(1, abs(init))) or learned != isinstance(ec, str):
+        rec.problems.append(("oracle-sac-ent-coef-setup", f"ent_coef={ec!r}: initial coefficient {got}, optimizer present {learned}; expected {init}, learned {isinstance(ec, str)}", -1))
+    rec.exprs.append(("sac-setup", f"(ck (sac_target_entropy_Q {fopt(given)} {coq_list(shape, coq_Z)}) {fq(H)}, ck (sac_init_alpha_Q {spec}) {fq(got)}, Bool.eqb (sac_learned {spec}) {coq_bool(learned)})", -1))
 
 
 def flat_bools(v):
